@@ -31,6 +31,7 @@ type vfC13Case struct {
 	AnsLite    bool   `json:"ans_lite"`
 	AnsRole    string `json:"ans_role"`    // "", "client", "server"
 	OfferSetup string `json:"offer_setup"` // actpass | active | passive | absent
+	Session    bool   `json:"session_level,omitempty"` // the offer states a=setup once at session level instead of per m-section
 	Media      bool   `json:"media"`       // audio track next to the data channel
 	Reneg      bool   `json:"reneg"`       // second exchange in the same direction after the first
 }
@@ -112,6 +113,13 @@ func vfC13Run(v *vfT, c vfC13Case) {
 	v.Label("ans-role=" + c.AnsRole)
 
 	munge := func(s string) string { return vfFamDMungeSetup(s, c.OfferSetup) }
+	if c.Session {
+		if c.OfferSetup == "absent" {
+			v.Skip("session-level placement of an absent attribute")
+		}
+		munge = func(s string) string { return vfFamDMungeSetupSession(s, c.OfferSetup) }
+		v.Label("offer-setup-at-session-level")
+	}
 	rounds := 1
 	if c.Reneg {
 		rounds = 2
@@ -203,6 +211,8 @@ func vfC13Run(v *vfT, c vfC13Case) {
 		if want := vfC13Opposite(c.OfferSetup); want != "" && ansSetup != want {
 			cause := "other"
 			switch {
+			case c.Session:
+				cause = "session-level-setup"
 			case c.AnsRole != "":
 				cause = "answering-role"
 			case c.OffLite && !c.AnsLite:
@@ -247,6 +257,10 @@ func vfC13Run(v *vfT, c vfC13Case) {
 }
 
 func vfC13Cases(withReneg bool) []vfC13Case {
+	return vfC13CasesLevel(withReneg, false)
+}
+
+func vfC13CasesLevel(withReneg, session bool) []vfC13Case {
 	var cases []vfC13Case
 	renegs := []bool{false}
 	if withReneg {
@@ -258,7 +272,10 @@ func vfC13Cases(withReneg bool) []vfC13Case {
 				for _, al := range []bool{false, true} {
 					for _, role := range []string{"", "client", "server"} {
 						for _, setup := range []string{"actpass", "active", "passive", "absent"} {
-							cases = append(cases, vfC13Case{OffLite: ol, AnsLite: al, AnsRole: role, OfferSetup: setup, Media: media, Reneg: reneg})
+							if session && setup == "absent" {
+								continue
+							}
+							cases = append(cases, vfC13Case{OffLite: ol, AnsLite: al, AnsRole: role, OfferSetup: setup, Session: session, Media: media, Reneg: reneg})
 						}
 					}
 				}
@@ -287,5 +304,25 @@ func TestVerif_C13_Matrix(t *testing.T) {
 	s.SetExhaustive(true)
 	s.Extra("enumerated", len(cases))
 	// independent pairs; a few at a time keeps the wall time low without starving the handshakes
+	vfFamDParallel(len(cases), 4, func(i int) bool { return s.One(cases[i]) })
+}
+
+// The same matrix with the offer's a=setup stated once at session level (RFC 4145 registers
+// the attribute for both levels; RFC 8859 lists it with level "B").  Kept in a test function of
+// its own because the statement's quantifier does not name the placement: whether a
+// session-level value counts as "the offer's a=setup value" is a reading of the statement.
+func TestVerif_C13_SessionLevelSetup(t *testing.T) {
+	cases := vfC13CasesLevel(false, true)
+	s := vfOpen(t, "C13", vfOpts{
+		Rule: "exhaustive: the 2x2x3 configuration matrix x offer a=setup{actpass,active,passive} given once at session level x {data, audio+data}; non-trivial as in the media-level matrix",
+		Assumptions: []string{"a session-level a=setup in the offer is the offer's a=setup value (RFC 4145 section 10: session and media level attribute)"},
+	}, vfC13Run)
+	defer s.Close()
+	s.SetSampleEvery(len(cases)/5 + 1)
+	if s.Replay() {
+		return
+	}
+	s.SetExhaustive(true)
+	s.Extra("enumerated_session_level", len(cases))
 	vfFamDParallel(len(cases), 4, func(i int) bool { return s.One(cases[i]) })
 }
